@@ -266,6 +266,8 @@ mod openssled {
     pub enum KafkaStream {
         Plain(TcpStream),
         Ssl(SslStream<TcpStream>),
+        #[cfg(feature = "verif_hooks")]
+        Mem(Box<dyn crate::client::verif::VerifStream>),
     }
 
     impl IsSecured for KafkaStream {
@@ -279,18 +281,32 @@ mod openssled {
             match *self {
                 KafkaStream::Plain(ref s) => s,
                 KafkaStream::Ssl(ref s) => s.get_ref(),
+                #[cfg(feature = "verif_hooks")]
+                KafkaStream::Mem(_) => unreachable!("in-memory stream has no socket"),
             }
         }
 
         pub fn set_read_timeout(&self, dur: Option<Duration>) -> io::Result<()> {
+            #[cfg(feature = "verif_hooks")]
+            if let KafkaStream::Mem(_) = *self {
+                return Ok(());
+            }
             self.get_ref().set_read_timeout(dur)
         }
 
         pub fn set_write_timeout(&self, dur: Option<Duration>) -> io::Result<()> {
+            #[cfg(feature = "verif_hooks")]
+            if let KafkaStream::Mem(_) = *self {
+                return Ok(());
+            }
             self.get_ref().set_write_timeout(dur)
         }
 
         pub fn shutdown(&mut self, how: Shutdown) -> io::Result<()> {
+            #[cfg(feature = "verif_hooks")]
+            if let KafkaStream::Mem(ref mut s) = *self {
+                return s.shutdown();
+            }
             self.get_ref().shutdown(how)
         }
     }
@@ -300,6 +316,8 @@ mod openssled {
             match *self {
                 KafkaStream::Plain(ref mut s) => s.read(buf),
                 KafkaStream::Ssl(ref mut s) => s.read(buf),
+                #[cfg(feature = "verif_hooks")]
+                KafkaStream::Mem(ref mut s) => s.read(buf),
             }
         }
     }
@@ -309,12 +327,16 @@ mod openssled {
             match *self {
                 KafkaStream::Plain(ref mut s) => s.write(buf),
                 KafkaStream::Ssl(ref mut s) => s.write(buf),
+                #[cfg(feature = "verif_hooks")]
+                KafkaStream::Mem(ref mut s) => s.write(buf),
             }
         }
         fn flush(&mut self) -> io::Result<()> {
             match *self {
                 KafkaStream::Plain(ref mut s) => s.flush(),
                 KafkaStream::Ssl(ref mut s) => s.flush(),
+                #[cfg(feature = "verif_hooks")]
+                KafkaStream::Mem(ref mut s) => s.flush(),
             }
         }
     }
@@ -396,6 +418,11 @@ impl KafkaConnection {
         security: Option<(SslConnector, bool)>,
     ) -> Result<KafkaConnection> {
         use crate::Error;
+
+        #[cfg(feature = "verif_hooks")]
+        if let Some(r) = crate::client::verif::connect(host) {
+            return KafkaConnection::from_stream(KafkaStream::Mem(r?), id, host, rw_timeout);
+        }
 
         let stream = TcpStream::connect(host)?;
         let stream = match security {
